@@ -338,18 +338,18 @@ pub fn def(tier: Tier) -> PropertyDef {
             "open finding F04 (near-max message with embedded marker) is excluded from sub check B by input class and counted",
         ],
         subs: vec![
-            sub("reader_model", tier.pick(20_000, 600_000), reader, reader_model)
+            sub("reader_model", tier.pick(100_000, 2_000_000), reader, reader_model)
                 .rates(&[("source_larger_than_buffer", 0.2), ("tight_capacity_big_low_mark", 0.05), ("backward_seek_accepted", 0.1)])
                 .boxed(),
-            sub("iter_diff_huge", tier.pick(3_000, 100_000), (huge_stream(), inject.clone(), extra.clone(), sched(), start.clone()), |v, r| iter_diff(v, r, false))
+            sub("iter_diff_huge", tier.pick(15_000, 300_000), (huge_stream(), inject.clone(), extra.clone(), sched(), start.clone()), |v, r| iter_diff(v, r, false))
                 .rates(&[("stream_larger_than_buffer", 0.2), ("embedded_markers", 0.2)])
                 .boxed(),
-            sub("iter_diff_many_small", tier.pick(1_200, 40_000), (many_small(), inject, extra, sched(), start.clone()), |v, r| iter_diff(v, r, false))
+            sub("iter_diff_many_small", tier.pick(4_000, 80_000), (many_small(), inject, extra, sched(), start.clone()), |v, r| iter_diff(v, r, false))
                 .rates(&[("stream_larger_than_buffer", 0.3)])
                 .shrink_iters(300)
                 .boxed(),
-            sub("suffix_position", tier.pick(10_000, 300_000), (stream(12, false, 300), any::<u16>(), start), suffix_check).rates(&[("proper_suffix", 0.3)]).boxed(),
-            crate::fuzzing::fuzz_sub("framing", "fuzz_framing", tier.pick(2_000, 20_000)),
+            sub("suffix_position", tier.pick(60_000, 1_000_000), (stream(12, false, 300), any::<u16>(), start), suffix_check).rates(&[("proper_suffix", 0.3)]).boxed(),
+            crate::fuzzing::fuzz_sub("framing", "fuzz_framing", tier.pick(10_000, 100_000)),
             // only used to replay the pinned reproducer of the open finding F04 (no exclusion)
             sub("f04_strict", std::env::var("VERIF_DEV_F04").ok().and_then(|s| s.parse().ok()).unwrap_or(0), f04_strict, |v, r| iter_diff(v, r, true)).boxed(),
         ],
